@@ -55,7 +55,7 @@ fn device(lead: u32) -> Device<ARadio, ATimer, TapeRng, 64, 1> {
     Device { radio: ARadio { lead }, rng: TapeRng { draws: 0, free: 0, accept: 0 }, timer: ATimer, mac, radio_buffer: RadioBuffer::new(), downlink }
 }
 
-/// KF-C06-1 (open finding): a radio error after the uplink was handed to the radio skips the step that advances FCntUp
+/// C06 under radio faults: a radio error after the uplink was handed to the radio must not skip the step that retires FCntUp (KF-C06-1, fixed)
 fn send_contract(faults: bool) {
     tape::init();
     unsafe { CL.faults = faults; CL.stray = true; MAC_MODE = 1; }
@@ -109,8 +109,8 @@ fn rx_downlink_timing(stray: bool) {
 #[kani::stub(crate::mac::Mac::rx2_complete, stub_mac_rx2_complete)]
 #[kani::unwind(66)]
 fn c06_async_send_no_faults() { send_contract(false) }
-// witness of KF-C06-1 (open finding), expected to FAIL while it is open
-// @verif props=C06 obligation=async_device::Device::send.counter_retired[radio fault at any call] label=proved-complete tier=quick finding=KF-C06-1 bound="a radio fault may occur at every radio call position"
+// (was the witness of KF-C06-1; the defect is fixed in /repo, so this is now a plain obligation over every fault position)
+// @verif props=C06 obligation=async_device::Device::send.counter_retired[radio fault at any call] label=proved-complete tier=quick bound="sequential executions of the de-async'd text (Y1); a radio fault may occur at every radio call position"
 #[kani::proof]
 #[kani::stub(crate::mac::Mac::send, stub_mac_send)]
 #[kani::stub(crate::mac::Mac::join_otaa, stub_mac_join)]
